@@ -12,8 +12,9 @@
 //	    into value and pointer fields —, Date JSON decode, SystemDate wire decode) and the
 //	    SystemDate+SystemTime recombination of a status (uhppote.GetStatus through the fake driver,
 //	    and uhppote.Listen -> OnEvent) are run and re-encoded;
-//	(c) DateTime wire decode for every whole minute of every flagged day and its two neighbours,
-//	    and for every hour of every day of 2024.
+//	(c) DateTime wire decode around every flagged day f — up to 2100 every whole minute of f-1, f
+//	    and f+1 plus second 59 of every minute of f; 2101..2437 (thorough) every whole minute of
+//	    f; later years every half hour of f — and for every hour of every day of 2024.
 //
 // The reference (ref.go) is a hand-written calendar plus time.Date probes in the explicit
 // *time.Location: a civil day is exempt iff no minute of it has an instant in the zone, a civil
